@@ -98,7 +98,7 @@ CLAIMS = {
     ),
     "C12": (
         "statement-order tables over Simulation._run and DynamicScenario._step cross-checked with the manual's numbered list",
-        "Decides the order and once-per-step multiplicity of the landmarks of a time step in code and manual, the once-per-step logs and the "
+        "Decides the order and once-per-step multiplicity of the landmarks of a time step in code and manual, the once-per-step logs, the schedule-order keying of the executed actions and the "
         "schedule check, the written comparisons of the step limit and the scenario time limit, the exact seconds-to-steps conversion, and that statements executed at run time are filed by their kind. Does NOT decide the exact step at which each duration construct fires for every program.",
         "DESIGN.md section 3 C12",
     ),
@@ -138,7 +138,7 @@ CLAIMS = {
     "C19": (
         "guard-dominance and weight-propagation rules over _invokeSubBehavior, shuffle loop shape, runtime sampling sequence",
         "Decides that only enabled items enter the weighted choice with their own weights (also when keys and weights are zipped), that the schedule keyword is forwarded unconditionally, that choose runs one and shuffle each exactly once, "
-        "that an empty eligible set rejects, and that run-time distributions sample immediately from a fresh map and are recorded. Does NOT "
+        "that an empty eligible set rejects, that eligibility is evaluated anew at every pick, that run-time distributions sample immediately from a fresh map and are recorded on every path, and that no run-time code restores or reseeds the generators. Does NOT "
         "decide numerical probabilities.",
         "DESIGN.md section 3 C19",
     ),
@@ -146,8 +146,8 @@ CLAIMS = {
         "must-pass-through guard of the cache, byte-layout agreement, reconnection coverage over the class hierarchy, finite interpretation of lane-id arithmetic",
         "Decides that the cached network is loaded only after version, map-digest and options-digest checks computed from the file bytes and "
         "all options, that writer and reader agree on the layout, that every element-referencing class is reconnected, that the lane-id arithmetic "
-        "choosing left / right neighbours is reciprocal for all ids in -4..4 (finite interpretation), and that the tolerance neighbourhood of a lookup is "
-        "the Euclidean disc. Does NOT decide anything about concrete maps (geometry of lookups, tangents).",
+        "choosing left / right neighbours is reciprocal for all ids in -4..4 (finite interpretation), that a lane's neighbours are collected from all its sections, that the tolerance neighbourhood of a lookup is "
+        "the Euclidean disc, and that the aggregate regions handed to the Network are unions of its element collections. Does NOT decide anything about concrete maps (geometry of lookups, tangents).",
         "DESIGN.md section 3 C20",
     ),
 }
